@@ -362,9 +362,30 @@ def run(repo: Repo, chk: Check, thorough: bool = False) -> None:
                     (dotted(n.value) or '').endswith('parent')]
     rets = [n for n in iv.walk() if isinstance(n, ast.Return)]
     dep_ok = bool(rets)
+    from ..util import excluded_by
+    cfg_iv = CFG(iv)
+
+    def _hidden_scn(e: ast.AST) -> Optional[bool]:          # the scenario "the own privacy class is HIDDEN"
+        if isinstance(e, ast.Compare) and len(e.ops) == 1 and 'HIDDEN' in norm(e) and 'privacyClass' in norm(e):
+            return isinstance(e.ops[0], (ast.Is, ast.Eq)) if isinstance(e.ops[0], (ast.Is, ast.Eq, ast.IsNot, ast.NotEq)) else None
+        return None
+
+    def _parent_scn(e: ast.AST) -> Optional[bool]:          # the scenario "the object has a parent"
+        if isinstance(e, ast.Attribute) and e.attr == 'parent':
+            return True
+        if isinstance(e, ast.Compare) and len(e.ops) == 1 and isinstance(e.left, ast.Attribute) and e.left.attr == 'parent' and norm(e.comparators[0]) == 'None':
+            return isinstance(e.ops[0], (ast.IsNot, ast.NotEq)) if isinstance(e.ops[0], (ast.Is, ast.Eq, ast.IsNot, ast.NotEq)) else None
+        return None
     for r in rets:
+        if isinstance(r.value, ast.Constant) and r.value.value is False:
+            continue        # "not visible" needs no justification
         deps = _local_dependencies(iv, r.value)
-        if not (any(h in deps for h in hidden_cmp) and any(p in deps for p in parent_reads)):
+        facts = cfg_iv.scenario_facts(r)
+        # a value that may be True is either computed from the own privacy / the visibility of the parent, or returned where the scenario
+        # "HIDDEN" / "has a parent" is impossible (guard clauses: `if self.privacyClass is HIDDEN: return False`)
+        own = any(h in deps for h in hidden_cmp) or excluded_by(facts, _hidden_scn)
+        par = any(p in deps for p in parent_reads) or excluded_by(facts, _parent_scn)
+        if not (own and par):
             dep_ok = False
     chk.ob('R12.3', 'pydoctor.model.Documentable.isVisible :: own privacy and parent visibility', dep_ok and bool(hidden_cmp) and bool(parent_reads),
            'every returned value depends on the HIDDEN comparison and on parent.isVisible' if dep_ok else
